@@ -41,24 +41,24 @@ def run(ctx):
                        "counted, not judged"]
     import time
     t0 = time.time()
+    # larger instances: seeded random ones, and (thorough) instances drawn by TLC -simulate from a larger scope;
+    # they are evaluated exhaustively by TLC (all tie resolutions) with Source = "file" / "both"
+    rows = rc.random_rescale_instances(ctx.rng, 60 if q else 800)
     scope = dict(max_n=3, max_t=2, max_edges=2 if q else 3, max_m=1, spans=(1, 2),
                  js=(1, 2) if q else (1, 2, 3), fixed_modes=("zeros",) if q else ("zeros", "last"), emit=True)
-    r = rc.rs_run(ctx, "c25_j1", rc.RS_INVARIANTS + ["EmitInv"], **scope)
-    recs = r.rec("resc")
-    if not q:  # four nodes: up to three epochs
+    if q:   # one JVM: the exhaustive scope and the random instances together
+        path = rc.write_ndjson(rc.work_file(ctx, "c25_inst.ndjson"), rows)
+        r = rc.rs_run(ctx, "c25_j1", rc.RS_INVARIANTS + ["EmitInv"], inst_file=path, source="both",
+                      required=("Pick", "Load") + rc.RS_ACTIONS, **scope)
+        recs = [x for x in r.rec("resc") if x["id"] == 0]
+        big = rc.group_rescale([x for x in r.rec("resc") if x["id"] != 0])
+    else:
+        r = rc.rs_run(ctx, "c25_j1", rc.RS_INVARIANTS + ["EmitInv"], **scope)
+        recs = r.rec("resc")
+        # four nodes: up to three epochs
         rb = rc.rs_run(ctx, "c25_j1b", rc.RS_INVARIANTS + ["EmitInv"], max_n=4, max_t=3, max_edges=2, max_m=1,
                        spans=(1,), js=(2, 3), fixed_modes=("zeros",), emit=True)
         recs = recs + rb.rec("resc")
-    groups = rc.group_rescale(recs)
-    ctx.exhaustive = True
-    cap = 4000 if q else 60000
-    if len(groups) > cap:
-        groups = ctx.rng.sample(groups, cap)
-        ctx.exhaustive = False
-    # larger instances: seeded random ones, and (thorough) instances drawn by TLC -simulate from a larger scope;
-    # both are then evaluated exhaustively by TLC (all tie resolutions) with Source = "file"
-    rows = rc.random_rescale_instances(ctx.rng, 60 if q else 800)
-    if not q:
         r2 = rc.rs_run(ctx, "c25_j1s", rc.RS_INVARIANTS + ["EmitInv"], simulate=1500, depth=40, max_n=5, max_t=4,
                        max_edges=5, max_m=3, spans=(1, 2, 3), js=(1, 2, 3, 4), fixed_modes=("none", "zeros", "last"),
                        emit=True)
@@ -70,10 +70,18 @@ def run(ctx):
                 rows.append({"id": 100000 + len(seen), "time": x["time"], "fixed": sorted(x["fixed"]),
                              "edges": x["edges"], "J": x["J"], "mu": [1, 1]})
         ctx.count("instances_drawn_by_simulation", len(seen))
-    path = rc.write_ndjson(rc.work_file(ctx, "c25_inst.ndjson"), rows)
-    r3 = rc.rs_run(ctx, "c25_j2f", rc.RS_INVARIANTS + ["EmitInv"], inst_file=path, source="file", emit=True, max_t=8,
-                   required=("Load",) + rc.RS_ACTIONS)
-    big = rc.group_rescale(r3.rec("resc"))
+        path = rc.write_ndjson(rc.work_file(ctx, "c25_inst.ndjson"), rows)
+        r3 = rc.rs_run(ctx, "c25_j2f", rc.RS_INVARIANTS + ["EmitInv"], inst_file=path, source="file", emit=True,
+                       required=("Load",) + rc.RS_ACTIONS)
+        big = rc.group_rescale(r3.rec("resc"))
+    groups = rc.group_rescale(recs)
+    ctx.exhaustive = True
+    cap = 4000 if q else 60000
+    if len(groups) > cap:
+        groups = ctx.rng.sample(groups, cap)
+        ctx.exhaustive = False
+    if not (groups and big):
+        raise harness.MachineryError("vacuous run: no Rescale instance was emitted")
     ctx.count("instances_exhaustive_scope", len(groups))
     ctx.count("instances_larger_evaluated_by_tlc", len(big))
     t1 = time.time()
